@@ -143,7 +143,7 @@ fn dc_layout(case: &Case) -> DcLayout {
 }
 
 /// Does `node` hold, for `id`, the mutation stamped `t` or a newer one?
-fn holds(node: &NodeH, ks: &str, id: u64, t: Stamp) -> bool {
+pub fn holds(node: &NodeH, ks: &str, id: u64, t: Stamp) -> bool {
     node.store.metadata(ks).get(&id).map(|(ts, _)| Stamp::of(*ts) >= t).unwrap_or(false)
 }
 
@@ -344,4 +344,303 @@ async fn run(case: &Case, net: e3::Net) -> Outcome {
 
 pub fn parts() -> Vec<Box<dyn DynPart>> {
     vec![Box::new(Gen::new(C06, 100_000, 3_000_000))]
+}
+
+// ---------------------------------------------------------------------------------------
+// Part `after-membership-change`: the promise is relative to the membership the issuer knows *now*.  Earlier
+// selections (which fill the selector's 2 s result cache) are followed by a join and / or a leave, and the
+// operation comes 50 ms - 2.5 s after the update.
+
+pub mod membership {
+    use std::collections::{BTreeMap, BTreeSet};
+    use std::time::Duration;
+
+    use datacake_eventual_consistency::StoreError;
+    use datacake_node::{Consistency, ConsistencyError};
+    use serde_json::{json, Value};
+
+    use super::{holds, Kind};
+    use crate::c01::{check_converged, ks_name, level_name};
+    use crate::c15::{required, Layout as DcLayout, LEVELS};
+    use crate::core::{Fail, Outcome, Pass, Prop, Src};
+    use crate::e3::{self, addr_of, Class, Layout};
+    use crate::ensure;
+    use crate::model::Stamp;
+    use crate::registry::{DynPart, Gen};
+
+    #[derive(Debug, Clone)]
+    pub struct Case {
+        pub nodes: Vec<(u8, String)>,
+        pub issuer: usize,
+        pub level: usize,
+        pub kind: Kind,
+        pub keys: Vec<u64>,
+        /// selections at the issuer before the membership changes (fill the result cache, move the cursors)
+        pub earlier: Vec<usize>,
+        /// data centre of a node that joins
+        pub joiner: Option<String>,
+        /// index of a node (not the issuer) that leaves
+        pub leaver: Option<usize>,
+        /// time between the membership update and the operation
+        pub gap_ms: u64,
+        pub preload: bool,
+        pub seed: u64,
+    }
+
+    pub struct AfterChange;
+
+    impl Prop for AfterChange {
+        type Case = Case;
+
+        fn id(&self) -> &'static str {
+            "C06"
+        }
+
+        fn part(&self) -> &'static str {
+            "after-membership-change"
+        }
+
+        fn width(&self) -> usize {
+            48
+        }
+
+        fn breadcrumbs(&self) -> bool {
+            true
+        }
+
+        fn shrink_budget(&self) -> usize {
+            400
+        }
+
+        fn gen(&self, src: &mut Src) -> Case {
+            let n_dcs = 1 + src.below(2);
+            let n = 1 + src.below(4);
+            let nodes: Vec<(u8, String)> = (0..n).map(|i| (i as u8 + 1, format!("dc-{}", src.below(n_dcs)))).collect();
+            let issuer = src.below(n);
+            let level = src.below(LEVELS.len());
+            let kind = *src.pick(&[Kind::Put, Kind::Del, Kind::PutMany, Kind::DelMany]);
+            let keys = match kind {
+                Kind::Put | Kind::Del => vec![1 + src.below64(3)],
+                _ => {
+                    let mut s = BTreeSet::new();
+                    for _ in 0..1 + src.below(3) {
+                        s.insert(1 + src.below64(4));
+                    }
+                    s.into_iter().collect()
+                },
+            };
+            // the operation's own level is selected beforehand most of the time: that is what the cache keeps
+            let earlier = (0..src.below(4)).map(|_| if src.chance(2, 3) { level } else { src.below(LEVELS.len()) }).collect();
+            let change = src.weighted(&[3, 2, 2]);
+            let joiner = if change == 0 || change == 2 { Some(format!("dc-{}", src.below(n_dcs))) } else { None };
+            let leaver = if (change == 1 || change == 2) && n >= 2 {
+                let others: Vec<usize> = (0..n).filter(|i| *i != issuer).collect();
+                Some(others[src.below(others.len())])
+            } else {
+                None
+            };
+            let gap_ms = *src.pick(&[50u64, 50, 300, 1_900, 2_500]);
+            Case { nodes, issuer, level, kind, keys, earlier, joiner, leaver, gap_ms, preload: src.chance(1, 2), seed: src.word() }
+        }
+
+        fn run(&self, case: &Case) -> Outcome {
+            e3::sim(case.seed, 70_000_000, BTreeMap::new(), |net| run(case, net))
+        }
+
+        fn describe(&self, case: &Case) -> Value {
+            json!({
+                "nodes": case.nodes,
+                "issuer": case.nodes[case.issuer].0,
+                "earlier_selections": case.earlier.iter().map(|l| level_name(*l)).collect::<Vec<_>>(),
+                "then_joins_in": case.joiner,
+                "then_leaves": case.leaver.map(|i| case.nodes[i].0),
+                "operation_after_ms": case.gap_ms,
+                "level": level_name(case.level),
+                "op": format!("{:?}", case.kind),
+                "keys": case.keys,
+                "preload": case.preload,
+            })
+        }
+
+        fn rule(&self) -> &'static str {
+            "1-4 real nodes in 1-2 data centres; 0-3 selections at the issuer (mostly at the operation's own level: they \
+             fill the selector's 2 s result cache); then a node joins and / or another node leaves (membership snapshot \
+             published on every remaining node, the leaver is stopped); 50 ms - 2.5 s later put/put_many/del/del_many at a \
+             generated level; oracle relative to the NEW membership: Ok => the issuer and at least the required number of \
+             distinct other current members (per data centre for Local/EachQuorum) hold the mutation or a newer stamp, and \
+             no request of the operation went to the node that left; NotEnoughNodes => fewer than the required other \
+             current members exist; ConsistencyFailure is not expected (every current member answers); afterwards every \
+             current member, the joiner included, converges to the LWW documents; non-trivial = level != None and the \
+             operation's level was selected before the change"
+        }
+    }
+
+    async fn run(case: &Case, net: e3::Net) -> Outcome {
+        let repair = Duration::from_secs(5);
+        let layout = Layout { nodes: case.nodes.clone(), repair_interval: repair };
+        let mut nodes = e3::start_cluster(&layout).await;
+        let t0 = tokio::time::Instant::now();
+        let ks = ks_name(0);
+        let level = LEVELS[case.level];
+        let issuer_id = case.nodes[case.issuer].0;
+
+        if case.preload {
+            // written at the issuer, which never leaves: the LWW model is built from the logs of the nodes that remain
+            let origin = nodes.iter().find(|n| n.id == issuer_id).unwrap();
+            for k in 1..=4u64 {
+                let _ = origin.handle.put(&ks, k, vec![9u8; 4], Consistency::None).await;
+            }
+            e3::advance(8_000).await;
+        }
+        // a node must not die in the middle of a repair (wall-clock watchdog artefact, see e3.rs)
+        e3::align_after_poller_cycle(t0, repair).await;
+        {
+            let issuer = nodes.iter().find(|n| n.id == issuer_id).unwrap();
+            for l in &case.earlier {
+                let _ = issuer.node.select_nodes(LEVELS[*l]).await;
+            }
+        }
+
+        // the membership changes
+        let mut current: Vec<(u8, String)> = case.nodes.clone();
+        let mut left_addr = None;
+        if let Some(i) = case.leaver {
+            let id = case.nodes[i].0;
+            current.retain(|(x, _)| *x != id);
+            let pos = nodes.iter().position(|n| n.id == id).unwrap();
+            let gone = nodes.remove(pos);
+            left_addr = Some(gone.addr);
+            let _ = e3::kill_node(gone).await;
+        }
+        let mut joiner_id = None;
+        if let Some(dc) = &case.joiner {
+            let id = 9u8;
+            current.push((id, dc.clone()));
+            joiner_id = Some(id);
+        }
+        let members = e3::members_of(&current);
+        for n in &nodes {
+            n.node.verif_set_members(members.clone());
+        }
+        if let (Some(id), Some(dc)) = (joiner_id, &case.joiner) {
+            let fresh = e3::start_node(id, dc, crate::store::ModelStore::default(), &members, repair).await;
+            nodes.push(fresh);
+        }
+        net.borrow_mut().log.clear();
+        e3::advance(case.gap_ms).await;
+
+        let issuer = nodes.iter().find(|n| n.id == issuer_id).unwrap();
+        let log_len_before = issuer.store.inner.lock().log.len();
+        net.borrow_mut().log.clear();
+        let res = match case.kind {
+            Kind::Put => issuer.handle.put(&ks, case.keys[0], vec![7u8; 5], level).await,
+            Kind::PutMany => {
+                let docs: Vec<(u64, Vec<u8>)> = case.keys.iter().map(|k| (*k, vec![*k as u8; 6])).collect();
+                issuer.handle.put_many(&ks, docs, level).await
+            },
+            Kind::Del => issuer.handle.del(&ks, case.keys[0], level).await,
+            Kind::DelMany => issuer.handle.del_many(&ks, case.keys.clone(), level).await,
+        };
+        let written: Vec<(u64, Stamp)> = {
+            let g = issuer.store.inner.lock();
+            g.log[log_len_before..].iter().filter(|(k, _, ts, _)| *k == ks && ts.node() == issuer.id).map(|(_, id, ts, _)| (*id, Stamp::of(*ts))).collect()
+        };
+        let asked: BTreeSet<std::net::SocketAddr> = net.borrow().log.iter().filter(|(_, c, _)| *c == Class::Direct).map(|(d, _, _)| *d).collect();
+
+        let mut dcl = DcLayout::new();
+        for (id, dc) in &current {
+            dcl.entry(dc.clone()).or_default().push(addr_of(*id));
+        }
+        let local_dc = case.nodes[case.issuer].1.clone();
+        let (need, per_dc) = required(level, &dcl, &local_dc);
+        let others = current.len() - 1;
+        if let Some(a) = left_addr {
+            ensure!(
+                !asked.contains(&a),
+                "asked-a-node-that-left",
+                "{:?} {} ms after the membership update still sent a request to {a}, which had left; asked {:?}",
+                level,
+                case.gap_ms,
+                asked
+            );
+        }
+        let mut labels = vec![];
+        match &res {
+            Ok(()) => {
+                labels.push("ok");
+                ensure!(written.len() == case.keys.len(), "ok-without-local-write", "call returned Ok but the issuer wrote {:?} for keys {:?}", written, case.keys);
+                for (id, t) in &written {
+                    let holders: Vec<&e3::NodeH> = nodes.iter().filter(|n| n.id != issuer.id && holds(n, &ks, *id, *t)).collect();
+                    ensure!(
+                        holders.len() >= need,
+                        "ok-but-too-few-replicas",
+                        "{:?} returned Ok {} ms after the membership became {:?}, but only {} other members hold id {id} at {:?} (required {need}); holders {:?}, asked {:?}",
+                        level,
+                        case.gap_ms,
+                        current,
+                        holders.len(),
+                        t,
+                        holders.iter().map(|n| n.id).collect::<Vec<_>>(),
+                        asked
+                    );
+                    for (dc, dc_need) in &per_dc {
+                        let in_dc = holders.iter().filter(|n| n.dc == *dc).count();
+                        ensure!(
+                            in_dc >= *dc_need,
+                            "ok-but-too-few-replicas-in-dc",
+                            "{:?} returned Ok but only {in_dc} other members of {dc} hold id {id} (required {dc_need}; membership {:?})",
+                            level,
+                            current
+                        );
+                    }
+                }
+            },
+            Err(StoreError::ConsistencyError(ConsistencyError::NotEnoughNodes { .. })) => {
+                labels.push("not_enough_nodes");
+                let mut enough = others >= need;
+                for (dc, dc_need) in &per_dc {
+                    let avail = current.iter().filter(|(id, d)| *id != issuer_id && d == dc).count();
+                    enough &= avail >= *dc_need;
+                }
+                ensure!(
+                    !enough,
+                    "spurious-not-enough-nodes",
+                    "{:?} failed with NotEnoughNodes {} ms after the membership became {:?} ({others} other members, {need} required)",
+                    level,
+                    case.gap_ms,
+                    current
+                );
+            },
+            Err(e) => {
+                return Err(Fail {
+                    signature: "unexpected-error".into(),
+                    message: format!("{:?} failed with {e} although every current member ({:?}) answers; asked {:?}", level, current, asked),
+                });
+            },
+        }
+        e3::advance(1_000 + 3 * 5_000 + 500).await;
+        check_converged(&nodes, 1, "after the membership change and the operation, 3 repair intervals later")?;
+
+        if case.joiner.is_some() {
+            labels.push("join");
+        }
+        if case.leaver.is_some() {
+            labels.push("leave");
+        }
+        let primed = case.earlier.contains(&case.level);
+        if primed && case.gap_ms < 2_000 {
+            labels.push("level_cached_before_the_change");
+        }
+        Ok(Pass { nontrivial: level != Consistency::None && primed, labels })
+    }
+
+    pub fn parts() -> Vec<Box<dyn DynPart>> {
+        vec![Box::new(Gen::new(AfterChange, 40_000, 1_500_000))]
+    }
+}
+
+pub fn parts_all() -> Vec<Box<dyn DynPart>> {
+    let mut p = parts();
+    p.extend(membership::parts());
+    p
 }
